@@ -446,6 +446,7 @@ class Exec:
         evs = self.events_for(s)
         live = any(e == 'connect' for _, e, _ in evs) and \
             not any(e == 'disconnect' for _, e, _ in evs) and s.expect_accept
+        live_any = live
         if a['op'] == 'ws_send':
             conn = self._sock(s, a.get('sock', 'main'))
             live = live and conn is not None and conn.accepted and not conn.done and \
@@ -453,7 +454,10 @@ class Exec:
         elif a['op'] == 'post':
             live = live and s.main_ws is None and s.kind == 'polling'
         return {'live': bool(live and quiet), 'settled_after': bool(a.get('settle', True)),
-                'other_causes': bool(s.causes) or s.vanished}
+                'other_causes': bool(s.causes) or s.vanished,
+                # live whatever transport the session is on (a POST to a WebSocket session)
+                'live_any': bool(live_any and quiet and not s.upg_attempts
+                                 and s.kind == 'websocket')}
 
     def annotate_live(self, s, a=None):
         a = a or self.actions[-1]
@@ -602,7 +606,12 @@ class Exec:
         self.world.ws_client_send(conn, frame)
         for att in s.upg_attempts:
             if att['conn'] is conn:
-                att['frames'].append((self.now, frame))
+                att.setdefault('raw_frames', []).append((self.now, frame))
+                canon = self.canon_handshake_frame(frame)
+                if canon is None:
+                    att['unsettled'] = True     # the reference decoder leaves its reading open
+                    canon = frame
+                att['frames'].append((self.now, canon))
                 if not a.get('settle', True):
                     att['unsettled'] = True
         pt, payload, _ = parse_frame(frame) if frame not in ('', b'') else (None, frame, frame)
@@ -615,6 +624,27 @@ class Exec:
                 s.pongs_unsolicited.append(self.now)
             s.ping_pending = False
             s.pongs.append(self.now)
+
+    def canon_handshake_frame(self, frame):
+        """'2probe' for every frame within the size limit that decodes to PING with payload
+        'probe' (also its JSON-string spelling), '5' for every frame of type UPGRADE, the frame
+        itself otherwise; None when the reference decoder allows more than one reading."""
+        limit = self.config.get('max_http_buffer_size', 1000000)
+        if not isinstance(frame, str) or frame == '' or len(frame) > limit:
+            return frame
+        r = rm.ref_decode_packet(frame)
+        if r[0] != 'ok':
+            return frame
+        _, pt, allowed, binary = r
+        if pt == 5:
+            return '5'
+        if pt == 2:
+            hits = [x == 'probe' for x in allowed]
+            if all(hits):
+                return '2probe'
+            if any(hits):
+                return None
+        return frame
 
     def op_ws_close(self, a):
         s = self.sess(a['s'])
@@ -647,7 +677,7 @@ class Exec:
         conn = self._sock(s, a.get('sock', 'main'))
         if conn is None:
             return
-        self.world.ws_fail(conn)
+        self.world.ws_fail(conn, a.get('exc'))
         conn.t_peer_closed = self.now
         if conn is s.main_ws:
             s.causes.append({'t': self.now, 'cause': 'ws-fail', 'step': len(self.actions),
@@ -1085,9 +1115,13 @@ class Drawer:
         wrong = d(st.integers(0, 9)) < self.profile.get('wrong_step_pct', 2)
         if wrong:
             frame = d(st.sampled_from(['2', '2prob', '3probe', '4probe', '5', '6', '', 'x',
-                                       b'2probe', '2probe' + 'x' * 300, '4hello', '1', '7']))
+                                       b'2probe', '2probe' + 'x' * 300, '4hello', '1', '7',
+                                       '2"probe"' + ' ' * 300, '2"probe" ', '2 probe']))
         else:
             frame = good
+            if d(st.integers(0, 19)) == 0:
+                # other spellings of the same packets
+                frame = '2"probe"' if n == 0 else d(st.sampled_from(['5x', '5{"a":1}']))
         return {'op': 'ws_send', 's': i, 'sock': 'upg', 'frame': rm.tag(frame)}
 
     def a_ws_send(self):
@@ -1123,7 +1157,11 @@ class Drawer:
         return self._sock_action('ws_close')
 
     def a_ws_fail(self):
-        return self._sock_action('ws_fail')
+        a = self._sock_action('ws_fail')
+        if a is not None and self.draw(st.integers(0, 2)) == 0:
+            # what later writes on the dead connection raise (libraries differ)
+            a['exc'] = self.draw(st.sampled_from(['RuntimeError', 'Exception']))
+        return a
 
     def a_pong(self):
         return {'op': 'pong', 's': self.session_index()}
